@@ -433,27 +433,18 @@ fn kind_set_agreement_named(cx: &mut Ctx, rule: &str) {
     if n == 0 {
         cx.fail(rule, &format!("{}/no-filter", rule), &p.rel, "no full-lexer filter in parser.rs");
     }
-    // soft keywords passthrough
-    let t = sm::tsx(&sk.file);
-    let marker = "ifmatches!(tok,";
-    let mut found = false;
-    for (i, _) in t.match_indices(marker) {
-        let sub = &t[i + marker.len()..];
-        if let Some(end) = sub.find(')') {
-            let body = &sub[..end];
-            if sub[end..].starts_with("){returnself.start_of_line;}") {
-                let kinds: BTreeSet<String> = body.split('|').map(|k| k.trim_start_matches("Tok::").trim_end_matches("{..}").to_string()).collect();
-                found = true;
-                if kinds == gated {
-                    cx.ok(rule, &format!("soft_keywords: start_of_line unchanged by {:?}", kinds));
-                } else {
-                    cx.fail(rule, &format!("{}/soft-keywords", rule), &sk.rel, &format!("the soft-keyword pass keeps start_of_line across {:?} but the gated kinds are {:?}", kinds, gated));
-                }
+    // soft keywords passthrough: interpreted in both configurations
+    match (crate::rules::c01::start_of_line_update(&sk, &tok, true), crate::rules::c01::start_of_line_update(&sk, &tok, false)) {
+        (Ok((sets_full, keeps_full)), Ok((sets_default, keeps_default))) => {
+            if keeps_full == gated && keeps_default.is_empty() && sets_full == sets_default {
+                cx.ok(rule, &format!("soft_keywords: with full-lexer start_of_line is left unchanged exactly by {:?}; every other token kind is treated as in the default configuration", keeps_full));
+            } else if keeps_full.is_empty() {
+                cx.fail(rule, &format!("{}/soft-keywords/missing", rule), &sk.rel, "the soft-keyword pass does not keep start_of_line across comment / non-logical-newline tokens: with full-lexer a comment line before `match` would demote the keyword");
+            } else {
+                cx.fail(rule, &format!("{}/soft-keywords", rule), &sk.rel, &format!("the soft-keyword pass keeps start_of_line across {:?} but the gated kinds are {:?} (start-of-line kinds: full-lexer {:?}, default {:?})", keeps_full, gated, sets_full, sets_default));
             }
         }
-    }
-    if !found {
-        cx.fail(rule, &format!("{}/soft-keywords/missing", rule), &sk.rel, "the soft-keyword pass does not keep start_of_line across comment / non-logical-newline tokens: with full-lexer a comment line before `match` would demote the keyword");
+        (Err(e), _) | (_, Err(e)) => cx.fail(rule, &format!("{}/soft-keywords/uninterpretable", rule), &sk.rel, &format!("the start_of_line update cannot be interpreted: {}", e)),
     }
     // the passthrough statement must be full-lexer gated
     let sites = collect_cfg_sites(&sk);
